@@ -31,12 +31,13 @@ import vlib
 from vlib import VERIF
 
 SPEC = os.path.join(VERIF, "spec", "Lattice")
-TYPES = ["pin", "slider", "weld", "universal", "cylinder", "bendstretch", "planar", "translation", "gimbal", "bushing", "ball", "free", "euler5", "spherical", "ellipsoid"]
+TYPES = ["pin", "slider", "weld", "universal", "cylinder", "bendstretch", "planar", "translation", "gimbal", "bushing", "ball", "free", "euler5", "spherical", "ellipsoid", "lineori", "freeline"]
 KINDS = {"pin": "a", "slider": "l", "weld": "", "universal": "aa", "cylinder": "al", "bendstretch": "al", "planar": "all",
          "translation": "lll", "gimbal": "aaa", "bushing": "aaalll", "ball": "cccc", "free": "cccclll", "balle": "aaa", "freee": "aaalll", "euler5": "aaall",
-         "spherical": "aal", "ellipsoid": "cccc", "ellipsoide": "aaa"}
+         "spherical": "aal", "ellipsoid": "cccc", "ellipsoide": "aaa",
+         "lineori": "cccc", "lineorie": "aaa", "freeline": "cccclll", "freelinee": "aaalll"}
 FB_TYPES = ("pin", "slider", "universal", "cylinder", "planar", "translation", "gimbal", "bushing", "euler5")
-NU = {t: (3 if t in ("ball", "ellipsoid") else 6 if t == "free" else len(KINDS[t])) for t in KINDS}
+NU = {t: (3 if t in ("ball", "ellipsoid") else 6 if t == "free" else 2 if t in ("lineori", "lineorie") else 5 if t in ("freeline", "freelinee") else len(KINDS[t])) for t in KINDS}
 # rational unit quaternions (numerators over 5^e) and what they cost in powers of 5
 QUATS = [([1, 0, 0, 0], 0, 0), ([0, 1, 0, 0], 0, 0), ([0, 0, 0, 1], 0, 0), ([0, 0, -1, 0], 0, 0),
          ([3, 4, 0, 0], 1, 2), ([3, 0, -4, 0], 1, 2), ([0, 3, 0, 4], 1, 2), ([4, 0, 0, 3], 1, 2), ([0, 0, 3, -4], 1, 2),
@@ -117,6 +118,11 @@ class Gen:
             return {"ax": "i", "k": 0, "m": 0}, [0, 0, 0], 0
         if cls == "t":
             return {"ax": "i", "k": 0, "m": 0}, vec(), 0
+        if cls == "r":      # a pure rotation: origin exactly at the body / parent origin
+            a, c = self.angle(budget)
+            if a["k"] % 4 == 0 and a["m"] == 0:
+                a["k"] = 1
+            return {"ax": self.r.choice("xyz"), "k": a["k"], "m": a["m"]}, [0, 0, 0], c
         a, c = self.angle(budget)
         return {"ax": self.r.choice("xyz"), "k": a["k"], "m": a["m"]}, vec(), c
 
@@ -127,7 +133,7 @@ class Gen:
         q = []
         for idx, kd in enumerate(KINDS[typ]):
             if kd == "a":
-                a, c = self.angle(budget, middle=(idx == 1 and typ in ("universal", "gimbal", "bushing", "balle", "freee", "euler5", "ellipsoide")))
+                a, c = self.angle(budget, middle=(idx == 1 and typ in ("universal", "gimbal", "bushing", "balle", "freee", "euler5", "ellipsoide", "lineorie", "freelinee")))
                 budget -= c
                 q.append(a)
             elif kd == "l":
@@ -143,7 +149,7 @@ class Gen:
         q2, b2 = [], budget2
         for idx, kd in enumerate(KINDS[typ]):
             if kd == "a":
-                a, c = self.angle(b2, middle=(idx == 1 and typ in ("universal", "gimbal", "bushing", "balle", "freee", "euler5", "ellipsoide")))
+                a, c = self.angle(b2, middle=(idx == 1 and typ in ("universal", "gimbal", "bushing", "balle", "freee", "euler5", "ellipsoide", "lineorie", "freelinee")))
                 b2 -= c
                 q2.append(a)
             elif kd == "l":
@@ -172,9 +178,9 @@ class Gen:
         desc, qs, us, left, q2s, u2s = [], [], [], {0: budget}, [], []
         left2 = {0: 2}
         # representation: with probability 1/4 the whole model uses the Euler-angle option (Ball / Free then have angle coordinates)
-        euler = int(self.r.random() < 0.25 and any(t[1] in ("ball", "free", "ellipsoid") for t in spec))
+        euler = int(self.r.random() < 0.25 and any(t[1] in ("ball", "free", "ellipsoid", "lineori", "freeline") for t in spec))
         if euler:
-            spec = [(p, {"ball": "balle", "free": "freee", "ellipsoid": "ellipsoide"}.get(t, t), rv, f, m) for (p, t, rv, f, m) in spec]
+            spec = [(p, {"ball": "balle", "free": "freee", "ellipsoid": "ellipsoide", "lineori": "lineorie", "freeline": "freelinee"}.get(t, t), rv, f, m) for (p, t, rv, f, m) in spec]
         for i, (parent, typ, rev, fcls, mcls) in enumerate(spec, 1):
             d, q, u, b = self.body(parent, typ, rev, fcls, mcls, left[parent], min(left[parent], left2[parent]))
             left[i] = b
@@ -264,7 +270,7 @@ class Gen:
             GV = [[0, -3, 0], [0, 0, -2], [2, -1, 1], [-1, 0, 3]]
             mobile = [i for i, d in enumerate(desc, 1) if NU[d["type"]] > 0]
             for _ in range(self.r.randint(1, 4)):
-                t = self.r.choice(["gravity", "gravity", "ugravity", "cforce", "ctorque", "mcf", "mls", "mld", "gdamper", "tpls", "tpls", "tpld", "tpcf"])
+                t = self.r.choice(["gravity", "gravity", "ugravity", "cforce", "ctorque", "mcf", "mls", "mld", "gdamper", "tpls", "tpls", "tpld", "tpcf", "cable", "cable"])
                 e = {"type": t, "on": int(self.r.random() < 0.85)}
                 if t in ("gravity", "ugravity"):
                     e["g"] = self.r.choice(GV); e["ex"] = [int(self.r.random() < 0.2) for _ in desc]
@@ -272,6 +278,12 @@ class Gen:
                     e["b"] = self.r.randint(1, nb); e["st"] = vec(); e["f"] = vec()
                 elif t == "gdamper":
                     e["c"] = self.r.randint(1, 3)
+                elif t == "cable":      # a cable spring through 2-5 points on bodies (Ground allowed); some via points disabled
+                    if any(x["type"] == "cable" for x in fel):
+                        continue
+                    np_ = self.r.randint(2, 5)
+                    e["pts"] = [{"b": self.r.randint(0, nb), "st": vec(), "on": 1 if i in (0, np_ - 1) else int(self.r.random() < 0.6)} for i in range(np_)]
+                    e["c"] = self.r.randint(1, 4); e["x0"] = self.r.randint(0, 2); e["diss"] = self.r.choice([0, 0, 1])
                 elif t in ("tpls", "tpld", "tpcf"):      # interaction elements; either end may be Ground, or both ends the same body
                     e["b"], e["b2"] = self.r.randint(0, nb), self.r.randint(0, nb)
                     e["st"], e["st2"] = vec(), vec()
@@ -317,7 +329,7 @@ def generate(tier, seed):
     r = g.r
     cfgs = []
     # systematic family: every type x direction x frame specialisation, alone, below a pin, above a pin
-    classes = (("i", "i"), ("t", "t"), ("g", "g"), ("g", "i"), ("i", "g"))
+    classes = (("i", "i"), ("t", "t"), ("g", "g"), ("g", "i"), ("i", "g"), ("i", "r"), ("t", "r"), ("r", "i"), ("r", "t"))
     for typ in TYPES:
         for rev in (0, 1):
             if typ == "weld" and rev:
@@ -325,7 +337,7 @@ def generate(tier, seed):
             for fcls, mcls in classes:             # alone: every frame specialisation, kinematics once and dynamics twice
                 for dyn in (0, 1, 1):
                     cfgs.append(g.config([(0, typ, rev, fcls, mcls)], dyn, 1 if dyn else 2))
-            for fcls, mcls in r.sample(classes, 2 if tier == "quick" else 5):     # below and above a pin
+            for fcls, mcls in r.sample(classes, 2 if tier == "quick" else 9):     # below and above a pin
                 for dyn in (0, 1):
                     b = 1 if dyn else 2
                     cfgs.append(g.config([(0, "pin", 0, "g", "t"), (1, typ, rev, fcls, mcls)], dyn, b))
@@ -345,7 +357,7 @@ def generate(tier, seed):
         for i in range(1, n + 1):
             parent = i - 1 if r.random() < 0.6 else r.randrange(i)
             typ = r.choice(TYPES)
-            spec.append((parent, typ, r.random() < 0.35 and typ != "weld", r.choice("itg"), r.choice("itg")))
+            spec.append((parent, typ, r.random() < 0.35 and typ != "weld", r.choice("itgr"), r.choice("itgr")))
         if sum(NU[t[1]] for t in spec) > 12:
             continue
         dyn = r.random() < 0.4
@@ -488,7 +500,7 @@ def compare(cfg, want, got):
     # representation independence: FunctionBased route / Euler option are already inside X, V above; the converted state:
     chk("C06", "pose-after-representation-conversion", w["X"], got["Xconv"])
     chk("C06", "velocity-after-representation-conversion", w["V"], got["Vconv"])
-    special = [d["type"] + ("-fb" if d.get("fb") else "") + ("-rev" if d["rev"] else "") for d in cfg["desc"] if d.get("fb") or d["rev"] or d["type"] in ("balle", "freee", "ellipsoide")]
+    special = [d["type"] + ("-fb" if d.get("fb") else "") + ("-rev" if d["rev"] else "") for d in cfg["desc"] if d.get("fb") or d["rev"] or d["type"] in ("balle", "freee", "ellipsoide", "lineorie", "freelinee")]
     if special:     # the same comparisons, attributed to C06 when a non-default representation / route / direction is involved
         chk("C06", "pose/" + "+".join(sorted(set(special))), w["X"], got["X"])
         chk("C06", "velocity/" + "+".join(sorted(set(special))), w["V"], got["V"])
@@ -529,21 +541,48 @@ def compare(cfg, want, got):
             nb_ = len(cfg["desc"])
             tpgot = {t["k"]: t for t in got[tag]["tp"]}
             for k, e in enumerate(FE):
-                if e["type"] not in ("tpls", "tpld", "tpcf") or not e["on"] or ("done", tag, k) in w:
+                if e["type"] not in ("tpls", "tpld", "tpcf", "cable") or not e["on"] or ("done", tag, k) in w:
                     continue
                 w[("done", tag, k)] = 1
-                tp = w[tag]["twopt"][k]
-                r = math.sqrt(sum(x * x for x in tp["p"]))
-                d = [x / r for x in tp["p"]]
-                f = e["c"] * (r - e["x0"]) if e["type"] == "tpls" else e["c"] * tp["pv"] / r if e["type"] == "tpld" else -e["c"]
-                F1 = [f * x for x in d]
-                F2 = [-x for x in F1]
                 cr = lambda a, b: [a[1] * b[2] - a[2] * b[1], a[2] * b[0] - a[0] * b[2], a[0] * b[1] - a[1] * b[0]]
                 exp = [[[0.0] * 3, [0.0] * 3] for _ in range(nb_ + 1)]
-                for b, rr, F in ((e["b"], tp["r1"], F1), (e["b2"], tp["r2"], F2)):
-                    t_ = cr(rr, F)
-                    exp[b][0] = [x + y for x, y in zip(exp[b][0], t_)]
-                    exp[b][1] = [x + y for x, y in zip(exp[b][1], F)]
+                if e["type"] == "cable":
+                    # active points, segment unit vectors, length and its rate; uniform tension k x (1 + c xdot), never negative
+                    act = [(d, pt) for d, pt in zip(e["pts"], w[tag]["cable"][k]) if d["on"]]
+                    segs = [[b - a for a, b in zip(p1[1]["p"], p2[1]["p"])] for p1, p2 in zip(act, act[1:])]
+                    lens = [math.sqrt(sum(x * x for x in sg)) for sg in segs]
+                    dirs = [[x / l_ for x in sg] for sg, l_ in zip(segs, lens)]
+                    L = sum(lens)
+                    Ldot = sum(sum(dd * (vb - va) for dd, va, vb in zip(dr, p1[1]["v"], p2[1]["v"])) for dr, p1, p2 in zip(dirs, act, act[1:]))
+                    x_ = max(0.0, L - e["x0"])
+                    fs = e["c"] * x_
+                    T = fs + max(-fs, fs * e["diss"] * Ldot)
+                    pwr = 0.0
+                    for i, (d, pt) in enumerate(act):
+                        F = [0.0, 0.0, 0.0]
+                        if i < len(dirs):
+                            F = [a + T * b for a, b in zip(F, dirs[i])]
+                        if i > 0:
+                            F = [a - T * b for a, b in zip(F, dirs[i - 1])]
+                        t_ = cr(pt["r"], F)
+                        exp[d["b"]][0] = [x + y for x, y in zip(exp[d["b"]][0], t_)]
+                        exp[d["b"]][1] = [x + y for x, y in zip(exp[d["b"]][1], F)]
+                        pwr += sum(a * b for a, b in zip(F, pt["v"]))
+                    F1 = [T, 0.0, 0.0]
+                    pe = 0.5 * e["c"] * x_ * x_
+                else:
+                    tp = w[tag]["twopt"][k]
+                    r = math.sqrt(sum(x * x for x in tp["p"]))
+                    d = [x / r for x in tp["p"]]
+                    f = e["c"] * (r - e["x0"]) if e["type"] == "tpls" else e["c"] * tp["pv"] / r if e["type"] == "tpld" else -e["c"]
+                    F1 = [f * x for x in d]
+                    F2 = [-x for x in F1]
+                    for b, rr, F in ((e["b"], tp["r1"], F1), (e["b2"], tp["r2"], F2)):
+                        t_ = cr(rr, F)
+                        exp[b][0] = [x + y for x, y in zip(exp[b][0], t_)]
+                        exp[b][1] = [x + y for x, y in zip(exp[b][1], F)]
+                    pe = 0.5 * e["c"] * (r - e["x0"]) ** 2 if e["type"] == "tpls" else 0.0
+                    pwr = sum(a * b for a, b in zip(F1, tp["v1"])) + sum(a * b for a, b in zip(F2, tp["v2"]))
                 g = tpgot.get(k)
                 if g is None:
                     res.append(("C38", "interaction-element-missing", json.dumps(e)))
@@ -554,14 +593,13 @@ def compare(cfg, want, got):
                 small("C13", "total-force-of-an-interaction-is-zero/" + e["type"], max(abs(x) for x in g["ftot"]), fs * 10)
                 small("C13", "total-moment-of-an-interaction-is-zero/" + e["type"], max(abs(x) for x in g["mtot"]), fs * 100)
                 small("C13", "interaction-applies-no-mobility-force/" + e["type"], g["mobnorm"], fs)
-                pe = 0.5 * e["c"] * (r - e["x0"]) ** 2 if e["type"] == "tpls" else 0.0
                 chk("C38", what + "/two-point-potential-energy/" + e["type"], pe, g["pe"])
                 # add to the totals the spec left them out of
                 for b in range(1, nb_ + 1):
                     w[tag]["body"][b - 1]["t"] = [x + y for x, y in zip(w[tag]["body"][b - 1]["t"], exp[b][0])]
                     w[tag]["body"][b - 1]["f"] = [x + y for x, y in zip(w[tag]["body"][b - 1]["f"], exp[b][1])]
                 w[tag]["pe2"] += 2 * pe
-                w[tag]["power"][k] = sum(a * b for a, b in zip(F1, tp["v1"])) + sum(a * b for a, b in zip(F2, tp["v2"]))
+                w[tag]["power"][k] = pwr
             chk("C38", what + "/body-forces/" + kinds, [[b["t"], b["f"]] for b in w[tag]["body"]], [[b["t"], b["f"]] for b in got[tag]["body"]])
             chk("C38", what + "/mobility-forces/" + kinds, w[tag]["mob"], got[tag]["mob"])
             chk("C38", what + "/potential-energy/" + kinds, w[tag]["pe2"], got[tag]["pe2"])
@@ -687,6 +725,11 @@ def run(pid, tier, rep, replay=None):
             if e["type"] in ("tpls", "tpld", "tpcf") and sum(frac(x) ** 2 for x in want[i]["forces"]["twopt"][k]["p"]) < 1e-12:
                 e["on"] = 0
                 cfgs[i]["felems2"][k]["on"] = 0
+            if e["type"] == "cable":      # consecutive active points must not coincide
+                pts = [conv(pt["p"]) for pt, d in zip(want[i]["forces"]["cable"][k], e["pts"]) if d["on"]]
+                if any(sum((a - b) ** 2 for a, b in zip(p1, p2)) < 1e-12 for p1, p2 in zip(pts, pts[1:])):
+                    e["on"] = 0
+                    cfgs[i]["felems2"][k]["on"] = 0
     for i in want:      # a rod of zero current length has no defined direction: switch it off
         for k, cc in enumerate(cfgs[i]["cons"]):
             if cc["type"] == "rod" and frac(want[i]["cons"][k]["perr"]) < 1e-12:
